@@ -9,5 +9,6 @@ if [ "$R" != "/repo" ]; then sed -i "s#=> .*#=> $R#" harness/go.mod; fi
 cp "$R/go.sum" harness/go.sum
 (cd harness && go build -tags verif -o hx .)
 ./harness/hx consts -repo "$R" -out lean/DDS/Generated/Consts.lean
+./harness/hx trans -repo "$R" -out lean/DDS/Generated
 (cd lean && lake build)
 echo "setup ok"
